@@ -734,6 +734,8 @@ const CRAFTED: &[&str] = &[
     "@Labelled { c: true, b: b, a: 1 }",
 ];
 
+mod sizes;
+
 fn main() {
     let mut s = Session::new("form");
     let entries = battery();
@@ -750,6 +752,14 @@ fn main() {
             let e = &entries[(i % n) as usize];
             (e.roundtrip)(rng, out);
         },
+    );
+
+    s.part(
+        "msgpack-sizes",
+        "one (shape, size) per case over 7 collection/string shapes x 13 sizes at the MessagePack length-class boundaries (15..17, 31..33, 255..257, 65535..65537, 70001): write -> read_from_msg_pack must give the value back; exhaustive over that grid; distinct by (shape, size)",
+        true,
+        (sizes::SIZES.len() * sizes::SHAPES.len()) as u64,
+        |i, _rng, out| sizes::run_case(i, out),
     );
 
     let cases = s.args.budget(150_000, 6_000_000);
